@@ -15,6 +15,8 @@ import (
 	"path/filepath"
 	"runtime"
 	"sort"
+	"strconv"
+	"strings"
 	"sync"
 
 	"github.com/crossplane/crossplane/verifh/kit"
@@ -55,6 +57,69 @@ func (s *sampler) flush(c *kit.Ctx) {
 		for _, e := range s.best[part] {
 			c.Sample(e.v)
 		}
+	}
+}
+
+// Violations are collected and handed to the kit at the end, one per key with the witness of
+// the lowest case, so that the reported case does not depend on goroutine scheduling.
+type pendingViolation struct {
+	name, what string
+	witness    any
+	order      []int
+}
+
+var (
+	violMu sync.Mutex
+	viols  = map[string]*pendingViolation{}
+)
+
+func caseOrder(name string) []int {
+	parts := strings.Split(name, "/")
+	o := []int{map[string]int{"dagx": 0, "dagr": 1, "res": 2, "dep": 3}[parts[0]]}
+	for _, p := range parts[1:] {
+		n, _ := strconv.Atoi(p)
+		o = append(o, n)
+	}
+	return o
+}
+
+func lessOrder(a, b []int) bool {
+	for i := 0; i < len(a) && i < len(b); i++ {
+		if a[i] != b[i] {
+			return a[i] < b[i]
+		}
+	}
+	return len(a) < len(b)
+}
+
+func violate(c *kit.Ctx, key, name, what string, witness any) {
+	c.Count("violation_occurrences", 1)
+	violMu.Lock()
+	defer violMu.Unlock()
+	o := caseOrder(name)
+	if cur, ok := viols[key]; ok && !lessOrder(o, cur.order) {
+		return
+	}
+	viols[key] = &pendingViolation{name, what, witness, o}
+}
+
+func flushViolations(c *kit.Ctx) {
+	violMu.Lock()
+	defer violMu.Unlock()
+	keys := make([]string, 0, len(viols))
+	for k := range viols {
+		keys = append(keys, k)
+	}
+	sort.Slice(keys, func(i, j int) bool {
+		a, b := viols[keys[i]], viols[keys[j]]
+		if lessOrder(a.order, b.order) != lessOrder(b.order, a.order) {
+			return lessOrder(a.order, b.order)
+		}
+		return keys[i] < keys[j]
+	})
+	for _, k := range keys {
+		v := viols[k]
+		c.Violate(k, v.name, v.what, v.witness)
 	}
 }
 
@@ -156,6 +221,7 @@ func main() {
 	parallel(c.N(8000, 60000), func(i int) { runResolveCase(c, i) })
 	c.Exhaustive(false) // parts 2 and 3 are sampled; part 1 is exhaustive up to dag_exhaustive_max_ids
 	samples.flush(c)
+	flushViolations(c)
 
 	if c.Only == "" {
 		for _, need := range []string{
